@@ -58,11 +58,11 @@ Ltac finish_len Hlen :=
 
 Definition att_ok (a : option att_fields) (rest : bytes) : Prop :=
   match a with
-  | Some x => len (sp_aaguid x) = 16 /\ len (sp_cred_id x) < 65536 /\ wf (sp_key x) /\
+  | Some x => len (sp_aaguid x) = 16 /\ len (sp_cred_id x) < 65536 /\ wfd (sp_key x) /\
               nth 0 (cbor_enc (sp_key x) ++ rest) 0 <> 163
   | None => True
   end.
-Definition ext_ok (e : option cbor) : Prop := match e with Some v => wf v | None => True end.
+Definition ext_ok (e : option cbor) : Prop := match e with Some v => wfd v | None => True end.
 
 Definition expected (rp : bytes) (fl count : Z) (a : option att_fields) (e : option cbor) : auth_data :=
   {| ad_rp_hash := rp; ad_flags := fl; ad_count := count;
